@@ -64,3 +64,17 @@ Proof.
   assert (Hcs : k = 0%N \/ k = 1%N \/ k = 2%N \/ k = 3%N) by lia.
   destruct Hcs as [E|[E|[E|E]]]; subst k; reflexivity.
 Qed.
+
+(* OPEN FINDING (C11): the report of a LATER phase is refused by a round that is still in an earlier
+   one - there is no route for it in the regenerated table - whatever the round holds.  A dealer that
+   holds back one addressee's deal until another addressee has reported its contradicting deal makes
+   the first one miss the report: it is still waiting for deals when the report arrives. *)
+Theorem later_phase_report_refused now k j p req :
+  (k < j)%N -> (j < 4)%N ->
+  round_step now (dmk (st_await_of k) p) (ev_dkg_error j) req = SRej.
+Proof.
+  intros Hkj Hj.
+  assert (Hc : ((k = 0 /\ j = 1) \/ (k = 0 /\ j = 2) \/ (k = 0 /\ j = 3) \/ (k = 1 /\ j = 2) \/ (k = 1 /\ j = 3) \/ (k = 2 /\ j = 3))%N) by lia.
+  destruct Hc as [[Ek Ej]|[[Ek Ej]|[[Ek Ej]|[[Ek Ej]|[[Ek Ej]|[Ek Ej]]]]]]; subst k j;
+    unfold round_step, do_on_dump; crunchd; reflexivity.
+Qed.
